@@ -467,11 +467,13 @@ def check_props_file(prop):
 # ------------------------------------------------------------------ known findings
 
 def load_known(prop):
-    p = os.path.join(VERIF, "known_findings.json")
-    if not os.path.exists(p):
-        return []
-    with open(p) as f:
-        allk = json.load(f)
+    """known_findings.json (the committed list) plus per-property staging files findings.d/*.json."""
+    import glob
+    allk = []
+    for p in [os.path.join(VERIF, "known_findings.json")] + sorted(glob.glob(os.path.join(VERIF, "findings.d", "*.json"))):
+        if os.path.exists(p):
+            with open(p) as f:
+                allk.extend(json.load(f))
     return [k for k in allk if k.get("property") == prop or prop in k.get("also", [])]
 
 
